@@ -100,7 +100,7 @@ fn max_head(c: &Case) -> usize {
 }
 
 /// property oracle on the implementation's black-box accounting
-fn oracle(c: &Case, out: &RunOut) -> (bool, String, usize, usize) {
+fn oracle(c: &Case, out: &RunOut) -> (bool, String, usize, usize, usize) {
     // prefix sums of head lengths of the first k requests
     let mut head_sum = vec![0usize];
     for it in &c.items {
@@ -113,10 +113,60 @@ fn oracle(c: &Case, out: &RunOut) -> (bool, String, usize, usize) {
     // and the heads of queued requests (all heads of the case, capped by what MAX_PIPELINED_MESSAGES
     // decode passes can take)
     let heads_total = *head_sum.last().unwrap();
-    let in_bound = 2 * (MAXB + c.r) + PMAX + heads_total.min(MAXP * (MAXB + c.r));
+    // with several requests carrying a body (pipelined-bodies family) the complete bodies of queued
+    // requests sit in their channels: the MAX_PIPELINED_MESSAGES largest of them
+    let mut bodies: Vec<usize> = c.items.iter().filter_map(|i| item_lens(i).map(|(h, t)| (t - h).min(PMAX + MAXB + c.r))).filter(|b| *b > 0).collect();
+    bodies.sort_unstable_by(|a, b| b.cmp(a));
+    let queued_bodies: usize = if bodies.len() >= 2 { bodies.iter().take(MAXP).sum() } else { 0 };
+    let in_bound = 2 * (MAXB + c.r) + PMAX + heads_total.min(MAXP * (MAXB + c.r)) + queued_bodies;
     let out_bound = c.wbs + max_enc(c) + 2 * max_head(c);
     let (mut max_in, mut max_out) = (0usize, 0usize);
     let mut why = String::new();
+    // queue clause: "at most a fixed number of pipelined requests are queued". Black-box count of
+    // the requests decoded and not yet answered: with T bytes taken and fewer than
+    // MAX_BUFFER_SIZE + read bytes unparsed (the first clause), every request head that ends
+    // within the first T - (MAX_BUFFER_SIZE + read - 1) bytes of the stream has been decoded.
+    // Bound (the code's exact one): the gate `messages.len() < MAX_PIPELINED_MESSAGES` is tested
+    // before a decode pass, not inside it, so the queue holds at most MAX_PIPELINED_MESSAGES - 1
+    // entries plus the heads one pass can decode out of one read buffer (`win`: the most head ends
+    // inside any MAX_BUFFER_SIZE + read - 1 consecutive bytes of THIS stream), plus the request in
+    // the service call: MAX_PIPELINED_MESSAGES + win; one more is allowed here.
+    let mut max_held_reqs = 0usize;
+    if why.is_empty() {
+        let mut head_end = vec![];
+        let mut off = 0usize;
+        for it in &c.items {
+            match item_lens(it) {
+                Some((h, t)) => {
+                    head_end.push(off + h);
+                    off += t;
+                }
+                None => break,
+            }
+        }
+        let span = MAXB + c.r - 1;
+        let (mut win, mut lo) = (0usize, 0usize);
+        for hi in 0..head_end.len() {
+            while head_end[hi] - head_end[lo] >= span {
+                lo += 1;
+            }
+            win = win.max(hi - lo + 1);
+        }
+        let qb = MAXP + 1 + win;
+        for (i, s) in out.snaps.iter().enumerate() {
+            let parsed_lo = s.taken.saturating_sub(span);
+            let decoded_lo = head_end.partition_point(|e| *e <= parsed_lo);
+            let held = decoded_lo.saturating_sub(s.responded);
+            max_held_reqs = max_held_reqs.max(held);
+            if held > qb {
+                why = format!(
+                    "poll {i}: {} bytes taken, {} responses: at least {held} requests are decoded and unanswered (or more than MAX_BUFFER_SIZE + read bytes are unparsed) > {qb} = MAX_PIPELINED_MESSAGES + 1 + {win} heads decodable in one pass",
+                    s.taken, s.responded
+                );
+                break;
+            }
+        }
+    }
     for (i, s) in out.snaps.iter().enumerate() {
         let consumed = head_sum[s.started.min(head_sum.len() - 1)] + s.delivered;
         if s.taken < consumed {
@@ -129,7 +179,7 @@ fn oracle(c: &Case, out: &RunOut) -> (bool, String, usize, usize) {
         max_out = max_out.max(out_mem);
         if in_mem > in_bound && why.is_empty() {
             why = format!(
-                "poll {i}: {in_mem} request bytes held (taken from the socket - heads of dispatched requests - body bytes delivered to handlers) > {in_bound} = 2*(MAX_BUFFER_SIZE + read) + payload limit + queued heads"
+                "poll {i}: {in_mem} request bytes held (taken from the socket - heads of dispatched requests - body bytes delivered to handlers) > {in_bound} = 2*(MAX_BUFFER_SIZE + read) + payload limit + queued heads and bodies"
             );
         }
         if out_mem >= out_bound && why.is_empty() {
@@ -161,6 +211,36 @@ fn oracle(c: &Case, out: &RunOut) -> (bool, String, usize, usize) {
                         why = "over-long request head was not answered with 431".into();
                     }
                 }
+                // ... and refused in bounded time: every earlier handler answers at once with a
+                // body-less response; MAX_BUFFER_SIZE + read bytes of the head are on offer from
+                // round i0 on; after two further polls against a socket that accepts everything the
+                // connection must have written the 431 (it then ends with the parse error)
+                let earlier_at_once = c.handlers.len() >= k
+                    && c.handlers.iter().take(k).all(|h| h.len() == 1 && matches!(h[0], HAct::Respond(RespBody::None)));
+                if why.is_empty() && !out.finished && earlier_at_once {
+                    let accept_all = |r: &Round| !r.wr.is_empty() && r.wr.iter().all(|w| matches!(w, W::A(n) if *n >= 1 << 20)) && r.fl.is_empty();
+                    let mut cum = 0usize;
+                    let mut i0 = None;
+                    for (i, r) in c.rounds.iter().enumerate() {
+                        cum += r.add;
+                        if cum >= off + MAXB + c.r {
+                            i0 = Some(i);
+                            break;
+                        }
+                    }
+                    if let Some(i0) = i0 {
+                        let polled = out.snaps.len();
+                        if polled >= i0 + 3 && c.rounds[polled - 2..polled].iter().all(accept_all) {
+                            let w = String::from_utf8_lossy(&out.wire);
+                            if !w.contains("HTTP/1.1 431 ") {
+                                why = format!(
+                                    "over-long request head: {} bytes of it on offer since poll {i0}, {} polls later (socket accepting everything) no 431 has been written and the connection is still open ({} bytes taken)",
+                                    out.offered - off, polled - 1 - i0, last.taken
+                                );
+                            }
+                        }
+                    }
+                }
                 break;
             }
             if let Some((_, t)) = item_lens(it) {
@@ -168,7 +248,7 @@ fn oracle(c: &Case, out: &RunOut) -> (bool, String, usize, usize) {
             }
         }
     }
-    (why.is_empty(), why, max_in, max_out)
+    (why.is_empty(), why, max_in, max_out, max_held_reqs)
 }
 
 fn expect_v(out: &RunOut) -> V {
@@ -237,7 +317,7 @@ fn body_script(rng: &mut Rng, wbs: usize) -> RespBody {
 fn gen_case(rng: &mut Rng, thorough: bool) -> Case {
     let wbs = *rng.pick(&[1usize, 64, 4096, 32768, 65536]);
     let r = *rng.pick(&[1024usize, 1024, 512, 1000, 37]);
-    let kind = rng.below(10);
+    let kind = rng.below(11);
     let mut items = vec![];
     let mut handlers = vec![];
     let mut rounds = vec![];
@@ -399,6 +479,58 @@ fn gen_case(rng: &mut Rng, thorough: bool) -> Case {
                 rounds.push(Round { add: 0, hw: k == 2, wr: wr_script(rng, 0), ..Default::default() });
             }
         }
+        10 => {
+            // queue bound with a payload attached at every gate test: one request whose handler never
+            // answers, then pipelined requests WITH bodies (Content-Length and chunked), segmented so
+            // that every poll ends just after a head whose body is still outstanding
+            kind_name = "pipelined-bodies";
+            let wire = *rng.pick(&[12_000usize, 20_000, 20_000, 30_000]);
+            let wire = if thorough && rng.chance(1, 3) { *rng.pick(&[2_500usize, 5_000, 8_000]) } else { wire };
+            let mode = rng.below(3); // 0 Content-Length, 1 chunked, 2 mixed
+            let span = MAXB + r;
+            // enough requests for the correct dispatcher to stall (queue full, read buffer at its cap)
+            // and for a dispatcher without the bound to be caught by the oracle
+            let n = (MAXP + 8).max(MAXP + 2 + 2 * (span / wire + 2) + rng.range(4, 12) as usize);
+            items.push(Item::Req { h: fit_head(18 + rng.below(40) as usize, None), b: None });
+            let mut h0 = vec![];
+            for _ in 0..rng.below(4) {
+                h0.push(HAct::Pend);
+            }
+            if rng.chance(1, 3) {
+                h0.push(HAct::Wait);
+            }
+            handlers.push(h0);
+            for _ in 0..n {
+                let chunked = mode == 1 || (mode == 2 && rng.chance(1, 2));
+                if chunked {
+                    let h = CHUNKED_BASE + rng.below(2001) as usize;
+                    let b = (wire - h.min(wire - 1)).min(PMAX - 2000).max(1);
+                    let cs = *rng.pick(&[1usize << 20, 4096, 1000, 255]);
+                    items.push(Item::Chunked { h, b, cs });
+                } else {
+                    let b = if rng.chance(1, 2) { rng.range(1, 200) as usize } else { rng.range(1, (wire / 2).min(PMAX - 2000) as u64) as usize };
+                    items.push(Item::Req { h: fit_head(wire - b, Some(b)), b: Some(b) });
+                }
+                handlers.push(vec![HAct::ReadAll, HAct::Respond(RespBody::None)]);
+            }
+            let aligned = rng.chance(4, 5);
+            // segment k ends just after head k+1 (aligned) or somewhere else (control group)
+            let lens: Vec<(usize, usize)> = items.iter().map(|i| item_lens(i).unwrap()).collect();
+            let mut carry = 0usize; // bytes of the previous item still to send (its body)
+            for (k, (h, t)) in lens.iter().enumerate() {
+                if k == 0 {
+                    carry = *t;
+                    continue;
+                }
+                let skew = if aligned { 0 } else { rng.below(*h as u64 / 2) as usize };
+                rounds.push(Round { add: carry + h - skew, wr: wr_script(rng, 0), ..Default::default() });
+                carry = t - h + skew;
+            }
+            rounds.push(Round { add: carry, wr: wr_script(rng, 0), ..Default::default() });
+            for k in 0..rng.range(2, 5) {
+                rounds.push(Round { add: 0, hw: k == 1, wr: wr_script(rng, 0), ..Default::default() });
+            }
+        }
         _ => {
             // unstructured: everything random (the ~malformed share)
             kind_name = "random";
@@ -470,7 +602,7 @@ fn run_one(id: String, mut case: Case, fix21: bool, em: &mut Emitter) {
             });
         }
         Ok(out) => {
-            let (ok, why, max_in, max_out) = oracle(&case, &out);
+            let (ok, why, max_in, max_out, max_held) = oracle(&case, &out);
             let last = out.snaps.last().cloned().unwrap_or_default();
             let nontrivial = max_in > 0 || max_out > 0;
             em.emit(CaseOut {
@@ -479,8 +611,8 @@ fn run_one(id: String, mut case: Case, fix21: bool, em: &mut Emitter) {
                 coq_case: Some(coq_case(&case, fix21)),
                 expect: Some(expect_v(&out).coq()),
                 impl_show: format!(
-                    "polls={} taken={} started={} delivered={} pulled={} accepted={} res={} max_in_mem={} max_out_mem={} heap_peak={}",
-                    out.snaps.len(), last.taken, last.started, last.delivered, last.pulled, last.accepted, last.res, max_in, max_out, peak
+                    "polls={} taken={} started={} delivered={} pulled={} accepted={} res={} max_in_mem={} max_out_mem={} min_reqs_held={} heap_peak={}",
+                    out.snaps.len(), last.taken, last.started, last.delivered, last.pulled, last.accepted, last.res, max_in, max_out, max_held, peak
                 ),
                 oracle_ok: ok,
                 oracle_why: why,
@@ -495,6 +627,7 @@ fn run_one(id: String, mut case: Case, fix21: bool, em: &mut Emitter) {
                     format!("heap_peak:{}", bucket(peak)),
                     format!("res:{}", last.res),
                     format!("requests:{}", bucket(case.items.len())),
+                    format!("reqs_held:{}", match max_held { 0 => "0", 1..=16 => "<=16", 17 => "17", _ => ">17" }),
                 ],
             });
         }
